@@ -15,13 +15,16 @@ def _get_enum_docs(enum: Union[model.Enum, model.EnumItem]) -> List[str]:
 
 
 def generate_serde(enum: model.Enum) -> List[str]:
-    ser = [
+    # The hand-written impls of a proposed enum, and the arms of its proposed items,
+    # exist only when the enum (the item) does.
+    gate = ['#[cfg(feature = "proposed")]'] if enum.proposed else []
+    ser = gate + [
         f"impl Serialize for {enum.name} {{",
         "fn serialize<S>(&self, serializer: S) -> Result<S::Ok, S::Error> where S: serde::Serializer,{",
         "match self {",
     ]
 
-    de = [
+    de = gate + [
         f"impl<'de> Deserialize<'de> for {enum.name} {{",
         f"fn deserialize<D>(deserializer: D) -> Result<{enum.name}, D::Error> where D: serde::Deserializer<'de>,"
         "{",
@@ -30,8 +33,9 @@ def generate_serde(enum: model.Enum) -> List[str]:
     ]
     for item in enum.values:
         full_name = f"{enum.name}::{to_upper_camel_case(item.name)}"
-        ser += [f"{full_name} => serializer.serialize_i32({item.value}),"]
-        de += [f"{item.value} => Ok({full_name}),"]
+        item_gate = ['#[cfg(feature = "proposed")]'] if item.proposed else []
+        ser += item_gate + [f"{full_name} => serializer.serialize_i32({item.value}),"]
+        de += item_gate + [f"{item.value} => Ok({full_name}),"]
     ser += [
         "}",  # match
         "}",  # fn
